@@ -52,6 +52,9 @@ pub struct NodeCfg {
     pub storage_faults: Vec<(u64, u32)>,
     #[serde(default)]
     pub storage_latency_max_ms: u64,
+    /// latency of the scans a start-up performs (keyspace list, metadata), virtual ms
+    #[serde(default)]
+    pub storage_scan_latency_max_ms: u64,
 }
 
 #[derive(Serialize, Deserialize, Clone, Debug)]
@@ -69,6 +72,10 @@ pub struct ClusterCfg {
     pub jitter_sites: Vec<(String, u64)>,
     #[serde(default)]
     pub hook_seed: u64,
+    /// every node is built with the public API alone (DatacakeNodeBuilder::connect + the store
+    /// extension): membership comes from the real gossip layer instead of harness views
+    #[serde(default)]
+    pub real_membership: bool,
 }
 
 #[derive(Serialize, Deserialize, Clone, Debug)]
@@ -88,7 +95,7 @@ pub enum Cmd {
     /// compare the node's in-memory sets with its store (C02's oracle, inside the cluster)
     Snapshot { snap_id: usize },
     /// re-send an earlier mutation as a fresh direct replication message (duplicate / late / reordered)
-    Replay { ks: String, id: u64, ts: HLCTimestamp, data: Option<Vec<u8>>, origin: u8 },
+    Replay { ks: String, id: u64, ts: HLCTimestamp, data: Option<Vec<u8>>, origin: u8, fresh: bool },
 }
 
 #[derive(Clone, Debug)]
@@ -144,6 +151,12 @@ pub struct Shared {
     pub up: BTreeSet<u8>,
     /// host each node id currently runs on (a node can move to its alternative address)
     pub cur_host: BTreeMap<u8, String>,
+    /// real-membership mode: the membership layer's own view per node
+    pub member_rx: BTreeMap<u8, watch::Receiver<nv::NodeMembership>>,
+    /// real-membership mode: what a subscriber of membership_changes() has added up per node
+    pub subscribed: BTreeMap<u8, BTreeMap<u8, SocketAddr>>,
+    /// real-membership mode: deltas the subscriber was handed (count)
+    pub deltas_seen: u64,
 }
 
 pub type SharedRef = Rc<RefCell<Shared>>;
@@ -183,6 +196,7 @@ impl<'a> Cluster<'a> {
                 let mut st = s.st.lock();
                 st.faults = n.storage_faults.iter().map(|(c, k)| (*c, FaultKind::FailAfter(*k))).collect();
                 st.latency_max_ms = n.storage_latency_max_ms;
+                st.scan_latency_max_ms = n.storage_scan_latency_max_ms;
                 st.latency_seed = mix(cfg.net_seed, n.id as u64);
             }
             stores.insert(n.id, s);
@@ -204,7 +218,13 @@ impl<'a> Cluster<'a> {
             snapshots: BTreeMap::new(),
             up: BTreeSet::new(),
             cur_host: cfg.nodes.iter().map(|n| (n.id, host_name(n.id))).collect(),
+            member_rx: BTreeMap::new(),
+            subscribed: BTreeMap::new(),
+            deltas_seen: 0,
         }));
+        if cfg.real_membership {
+            chitchat::verif::set_seed(cfg.net_seed ^ 0xC41C);
+        }
         // wall clock: base + host elapsed + per-node skew + scheduled jumps
         let clock_jumps: Rc<RefCell<BTreeMap<u8, i64>>> = Rc::new(RefCell::new(BTreeMap::new()));
         {
@@ -316,6 +336,8 @@ impl<'a> Cluster<'a> {
         self.shared.borrow_mut().up.remove(&node);
         self.shared.borrow_mut().cmd_tx.remove(&node);
         self.shared.borrow_mut().member_tx.remove(&node);
+        self.shared.borrow_mut().member_rx.remove(&node);
+        self.shared.borrow_mut().subscribed.remove(&node);
         let h = self.host_of(node);
         self.sim.crash(h);
         // in-flight storage calls die with the host; nothing is parked in E2
@@ -357,6 +379,9 @@ impl<'a> Drop for Cluster<'a> {
 async fn node_main(sh: SharedRef, me: NodeCfg, _all: Vec<NodeCfg>, repair_ms: u64, host: String) -> turmoil::Result {
     let id = me.id;
     let me_addr: SocketAddr = (turmoil::lookup(host), PORT).into();
+    if sh.borrow().cfg.real_membership {
+        return real_node_main(sh, me, me_addr).await;
+    }
     let server = datacake_rpc::Server::listen((IpAddr::from(Ipv4Addr::UNSPECIFIED), PORT).into()).await?;
     let clock = Clock::new(id);
     let network = RpcNetwork::default();
@@ -369,8 +394,7 @@ async fn node_main(sh: SharedRef, me: NodeCfg, _all: Vec<NodeCfg>, repair_ms: u6
     let handle = nv::new_handle(member, clock.clone(), network.clone(), selector, stats, crx);
     let storage = sh.borrow().stores[&id].clone();
     let store: EventuallyConsistentStore<SimStorage> = ecv::create_store(storage, Duration::from_millis(repair_ms), handle, &server).await.map_err(|e| e.to_string())?;
-    let group = ecv::group_of(&store);
-    let (ctx_tx, mut cmd_rx) = mpsc::unbounded_channel::<Cmd>();
+    let (ctx_tx, cmd_rx) = mpsc::unbounded_channel::<Cmd>();
     {
         let mut s = sh.borrow_mut();
         *s.boots.entry(id).or_insert(0) += 1;
@@ -394,6 +418,63 @@ async fn node_main(sh: SharedRef, me: NodeCfg, _all: Vec<NodeCfg>, repair_ms: u6
             }
         }
     }
+    command_loop(sh, id, store, clock, network, cmd_rx).await
+}
+
+/// A node built with the public API alone: `DatacakeNodeBuilder::connect` (RPC server, clock,
+/// selector, gossip membership over the RPC transport, membership watcher) and
+/// `EventuallyConsistentStoreExtension` (the unmodified `EventuallyConsistentStore::create`).
+async fn real_node_main(sh: SharedRef, me: NodeCfg, me_addr: SocketAddr) -> turmoil::Result {
+    use datacake_eventual_consistency::EventuallyConsistentStoreExtension;
+    use datacake_node::{ConnectionConfig, DatacakeNodeBuilder};
+    use tokio_stream::StreamExt;
+    let id = me.id;
+    let seeds: Vec<String> = sh.borrow().addrs.iter().filter(|(n, _)| **n != id).map(|(_, a)| a.to_string()).collect();
+    let listen: SocketAddr = (IpAddr::from(Ipv4Addr::UNSPECIFIED), PORT).into();
+    // gossip replies go to the sender's *listen* address, so it has to be the routable one
+    let _ = listen;
+    let node = DatacakeNodeBuilder::<DCAwareSelector>::new(id, ConnectionConfig::new(me_addr, me_addr, seeds)).with_data_center(me.dc.clone()).connect().await.map_err(|e| format!("connect: {e}"))?;
+    let storage = sh.borrow().stores[&id].clone();
+    let store: EventuallyConsistentStore<SimStorage> = node.add_extension(EventuallyConsistentStoreExtension::new(storage)).await.map_err(|e| format!("store extension: {e}"))?;
+    let handle = node.handle();
+    let clock = handle.clock().clone();
+    let network = handle.network().clone();
+    let (ctx_tx, cmd_rx) = mpsc::unbounded_channel::<Cmd>();
+    {
+        let mut s = sh.borrow_mut();
+        *s.boots.entry(id).or_insert(0) += 1;
+        s.cmd_tx.insert(id, ctx_tx);
+        s.member_rx.insert(id, nv::members_of(&node));
+        s.subscribed.insert(id, BTreeMap::new());
+        s.up.insert(id);
+    }
+    // a component that subscribes right at start and applies each change it is handed, in order
+    {
+        let sh = sh.clone();
+        let mut changes = handle.membership_changes();
+        tokio::task::spawn_local(async move {
+            while let Some(ch) = changes.next().await {
+                let mut s = sh.borrow_mut();
+                s.deltas_seen += 1;
+                let Some(set) = s.subscribed.get_mut(&id) else { break };
+                for m in &ch.left {
+                    if set.get(&m.node_id) == Some(&m.public_addr) {
+                        set.remove(&m.node_id);
+                    }
+                }
+                for m in &ch.joined {
+                    set.insert(m.node_id, m.public_addr);
+                }
+            }
+        });
+    }
+    let r = command_loop(sh, id, store, clock, network, cmd_rx).await;
+    drop(node);
+    r
+}
+
+async fn command_loop(sh: SharedRef, id: u8, store: EventuallyConsistentStore<SimStorage>, clock: Clock, network: RpcNetwork, mut cmd_rx: mpsc::UnboundedReceiver<Cmd>) -> turmoil::Result {
+    let group = ecv::group_of(&store);
     let store_handle = store.handle();
     let repairer = Rc::new(tokio::sync::Mutex::new(ecv::Repairer::new(group.clone(), network.clone())));
     while let Some(cmd) = cmd_rx.recv().await {
@@ -439,7 +520,7 @@ async fn node_main(sh: SharedRef, me: NodeCfg, _all: Vec<NodeCfg>, repair_ms: u6
                         r.result = Some(res);
                     }
                 },
-                Cmd::Replay { ks, id: doc_id, ts, data, origin } => {
+                Cmd::Replay { ks, id: doc_id, ts, data, origin, fresh } => {
                     // delivered to *this* node's consistency service over the network from itself
                     // is pointless; the harness sends Replay to the node that should re-send it.
                     let targets: Vec<SocketAddr> = {
@@ -448,7 +529,7 @@ async fn node_main(sh: SharedRef, me: NodeCfg, _all: Vec<NodeCfg>, repair_ms: u6
                     };
                     let origin_addr = sh.borrow().addrs.get(&origin).copied().unwrap_or(targets.first().copied().unwrap_or(([0, 0, 0, 0], 0).into()));
                     for t in targets {
-                        let ch = network.get_or_connect(t);
+                        let ch = if fresh { datacake_rpc::Channel::connect(t) } else { network.get_or_connect(t) };
                         let mut c = ecv::ConsistencyClient::<SimStorage>::new(clock.clone(), ch);
                         let r = match &data {
                             Some(d) => c.put(ks.clone(), datacake_eventual_consistency::Document::new(doc_id, ts, d.clone()), origin, origin_addr).await,
